@@ -21,14 +21,16 @@ type Ops struct {
 	Name string
 
 	// Groth16 (proof any = *groth16_<curve>.Proof, vk any = *VerifyingKey)
-	G16Clone         func(p any) any
-	G16SingleEdits   func(p any, donors []any, vk any) []Edit
-	G16ListEdits     func(p any, donors []any) []Edit
-	G16Surplus       func(p any, vk any, oldPub, newPub []*big.Int) any
-	G16KInfinity     func(vk any) []bool
-	G16NbCommitments func(vk any) int
-	G16ProofEqual    func(a, b any) bool
-	G16DeclaredLens  func(b []byte) []uint32
+	G16Clone           func(p any) any
+	G16SingleEdits     func(p any, donors []any, vk any) []Edit
+	G16ListEdits       func(p any, donors []any) []Edit
+	G16Surplus         func(p any, vk any, oldPub, newPub []*big.Int) any
+	G16KInfinity       func(vk any) []bool
+	G16NbCommitments   func(vk any) int
+	G16ProofEqual      func(a, b any) bool
+	G16DeclaredLens    func(b []byte) []uint32
+	G16PrefixOffsets   func(b []byte) []int
+	PlonkPrefixOffsets func(b []byte) []int
 
 	// PLONK
 	PlonkClone        func(p any) any
